@@ -26,14 +26,24 @@ CFG = dict(
                "characterisations (any carrier with a strict total order on the valid values: reals and integers) for "
                "min / max and the FIRST arg-extreme with an index that counts nulls; counts, first / last valid, any / all; "
                "nullness exactly below max(min_periods, intrinsic minimum); permutation invariance of the symmetric ones. "
+               "Binary64 rounding of the one-pass SUM is a theorem too (Proofs/RoundSum.v, (R1)-(R4), about the execution instance "
+               "at Coq's primitive float with Flocq's IEEE addition): whenever the computed sum is finite, |vsum_float xs - sum of "
+               "the valid elements| <= ((1+u)^n - 1) * sum |valid elements| (u = 2^-53, n valid elements; <= n u (1+u)^n), the float "
+               "and option-R models are null together, a finite result certifies finite inputs, and on dyadic-grid inputs (the "
+               "generated k/4 values) no addition rounds: model(float) = model(option R). Still partial: no rounding bound for "
+               "mean / var / skew / kurt / cov / corr (division, products, cancellation) — there rounding remains the comparator "
+               "tolerance. "
                "The model is tied to the code by ~100k differential cases per run through every iterator source.",
     level_note="Trusted: Coq kernel + Reals axioms for the option-R theorems (integer / order theorems are axiom-free); the "
-               "hand-written model; binary64 rounding is outside the theorems and absorbed by the tolerance (generated values "
+               "hand-written model; binary64 rounding is outside the theorems (except the one-pass sum, (R1)-(R4)) and absorbed by the tolerance (generated values "
                "are dyadic so the power sums are exact); f64::powi modelled as compiler-rt square-and-multiply; the numeric "
                "cast to bool of mask elements (C15) is applied by the harness when rendering a mask.",
     trusted=["Reals axioms of the Coq standard library (ClassicalDedekindReals.sig_forall_dec, sig_not_dec, "
              "FunctionalExtensionality.functional_extensionality_dep) under the theorems stated over option R",
-             "binary64 rounding / overflow is not modelled by the proof instance (option R); the float instance is compared "
+             "under the binary64 theorems (R1)-(R4): Classical_Prop.classic and the standard library's specification of the "
+             "primitive floats (FloatAxioms.add_spec, abs_spec, eqb_spec, Prim2SF_valid, SF2Prim_Prim2SF, Prim2SF_SF2Prim), on which "
+             "Flocq.IEEE754.PrimFloat rests; Flocq 4.1.0 is checked by Coq and declares no axiom",
+             "binary64 rounding / overflow is not modelled by the proof instance (option R); apart from vsum the float instance is compared "
              "with tolerance; integer overflow of vsum / n_sum on i32 / i64 is out of scope (DESIGN 5.2)",
              "tools/propcfg/C11.py expands the model's back-reference cells (12 j 0 = same as cell j) before the driver's "
              "standard comparators run"],
